@@ -442,5 +442,40 @@ def matchProb {α : Type} [ScoreNum α] (a : Alphabet) (x y : Nat) (p : Option (
     let (prob, sx, sy) ← matchLoop rowx rowy pf a.K 0 (zero, zero, zero)
     some (div prob (mul sx sy))
 
+/-- the loop `for (x = K+1; x <= Kp-3; x++) sc[x] = score(a, x, sc)` of the `esl_abc_{I,F,D}{Avg,Expect}ScVec` wrappers:
+    `k` iterations left, in place on the `Kp`-long vector `sc`; `none` = a read or the store is out of bounds -/
+def scVecLoop {β : Type} (f : Nat → List β → Option β) : Nat → Nat → List β → Option (List β)
+  | 0, _, sc => some sc
+  | k+1, x, sc => do
+    let v ← f x sc
+    if x < sc.length then scVecLoop f k (x+1) (sc.set x v) else none
+
+/-- `esl_abc_{F,D}AvgScVec(a, sc)` -/
+def avgScVec {α : Type} [ScoreNum α] (a : Alphabet) (sc : List α) : Option (List α) :=
+  scVecLoop (fun x sc => a.avgScore x sc) (a.Kp - 3 - a.K) (a.K + 1) sc
+
+/-- `esl_abc_{F,D}ExpectScVec(a, sc, p)` -/
+def expectScVec {α : Type} [ScoreNum α] (a : Alphabet) (sc p : List α) : Option (List α) :=
+  scVecLoop (fun x sc => a.expectScore x sc p) (a.Kp - 3 - a.K) (a.K + 1) sc
+
+/-- positions and characters `esl_abc_ValidateSeq` counts as bad: not `esl_abc_CIsValid` (with an alphabet), or not 7-bit
+    (without one) -/
+def badChars (a : Option Alphabet) : List Nat → Nat → List (Nat × Nat)
+  | [], _ => []
+  | c :: cs, i =>
+    let bad := match a with
+      | some a => !a.cIsValid c
+      | none => decide (c ≥ 128)
+    if bad then (c, i) :: badChars a cs (i+1) else badChars a cs (i+1)
+
+/-- `esl_abc_ValidateSeq(a, seq, L, errbuf)`: status and the message left in `errbuf` (1-based position of the first bad
+    character) -/
+def validateSeqMsg (a : Option Alphabet) (seq : List Nat) : Status × List Nat :=
+  match badChars a seq 0 with
+  | [] => (.ok, [])
+  | [(c, i)] => (.einval, str "invalid char " ++ [c] ++ str s!" at pos {i+1}")
+  | (c, i) :: rest =>
+    (.einval, str s!"{rest.length + 1} invalid chars (including " ++ [c] ++ str s!" at pos {i+1})")
+
 end Alphabet
 end EaselModel.Alphabet
